@@ -54,6 +54,24 @@ def gen(rng, tier):
     for _ in range(40 if tier == "quick" else 400):
         ds = [L.g_seg(rng) if rng.random() < 0.7 else L.g_foreign(rng) for _ in range(rng.randrange(3, 7))]
         add(L.g_signal(rng, descs=ds), "many-descriptors")
+    # two descriptors of one section that are Equal in the library's sense (type, event id, segment numbers, same signal time)
+    # but differ in UPID / duration / flags, adjacent or not: both are in the list, in order (seeded C08-u1: the decoder
+    # dropped "repeats")
+    import copy as _copy
+    for _ in range(40 if tier == "quick" else 600):
+        d1 = L.g_seg(rng)
+        while not d1[2]:
+            d1 = L.g_seg(rng)
+        d2 = _copy.deepcopy(d1)
+        other = L.g_seg(rng)
+        while not other[2]:
+            other = L.g_seg(rng)
+        b2, bo = d2[2][0], other[2][0]
+        b2[0], b2[1], b2[2], b2[3] = bo[0], bo[1], bo[2], bo[3]      # components, duration, restrictions, UPID of another one
+        mid = [L.g_seg(rng)] if rng.random() < 0.5 else []
+        mid += [L.g_foreign(rng)] if rng.random() < 0.3 else []
+        cmd = [1, L.g_stime(rng, must=True)] if rng.random() < 0.7 else None
+        add(L.g_signal(rng, cmd=cmd, descs=[d1] + mid + [d2] + ([_copy.deepcopy(d1)] if rng.random() < 0.3 else [])), "equal-descriptors")
     # descriptors at the size limit: descriptor_length 250..255 (one byte length; a decoder that does the loop
     # arithmetic in uint8 wraps exactly here), as foreign descriptors and as segmentation descriptors with a long UPID,
     # alone, first, last and in the middle of the loop
